@@ -237,7 +237,8 @@ def method_of(prog, ci, name):
 
 
 def module_region(prog, fi, depth=3):
-    """fi plus the module-level functions of the same module it (transitively) calls by name"""
+    """fi plus the module-level functions of the same module it (transitively) calls by name, and the methods of private helper
+    classes of the module that it constructs"""
     out, seen = [fi], {fi.qual}
     frontier = [fi]
     for _ in range(depth):
@@ -250,6 +251,20 @@ def module_region(prog, fi, depth=3):
                         seen.add(r[1].qual)
                         out.append(r[1])
                         nxt.append(r[1])
+                    if r and r[0] == "class" and r[1].module is fi.module and r[1].name.startswith("_"):
+                        # a private helper class of the module built here: its methods belong to the region
+                        for m in r[1].methods.values():
+                            if m.qual not in seen:
+                                seen.add(m.qual)
+                                out.append(m)
+                                nxt.append(m)
+                if isinstance(c, ast.Call) and isinstance(c.func, ast.Attribute) and dotted(c.func.value) == "self" and f.cls is not None \
+                        and f.cls.name.startswith("_") and f.cls.module is fi.module:
+                    m = f.cls.methods.get(c.func.attr)
+                    if m is not None and m.qual not in seen:
+                        seen.add(m.qual)
+                        out.append(m)
+                        nxt.append(m)
         frontier = nxt
     return out
 
